@@ -8,13 +8,13 @@ from vlib.props import c13
 PLUGINS = ["fmap", "join"]
 OPS = {"fmap", "fmaps", "join", "joins"}
 
-RULE = ("fmap: 36 (element, result) type pairs (every element type of C13/C14 twice, 8 result types incl. pointers, slices, structs) x "
+RULE = ("fmap: 64 (element, result) type pairs (every element type of C13/C14 with two of 8 result types and with itself as result type, so that an in-place implementation is type-correct) x "
         "the boundary-biased list pool (nil, empty, every small length, aliased elements) with the mapped function scripted by a result "
         "list and its call log in the answer; fmaps: 8 result types x strings over ASCII, 2-, 3- and 4-byte runes, boundary code points and "
         "invalid encodings (lone continuation bytes, truncated sequences, overlong forms, surrogates, > U+10FFFF, 0xFF, random byte "
         "strings); join: per element type nil, empty, [nil], [empty], nested empties, every pool list alone, random lists of 2-4 inner "
-        "lists with nil / empty members, the same inner list twice; joins: nil, empty, every pool string alone, random lists; the input as "
-        "observed after the call is part of every answer; distinct = distinct op lines whose containers hold >= 2 elements in total")
+        "lists with nil / empty members, the same inner list twice, a first inner list with spare capacity for all that follows, and inner lists that are prefix views of ONE backing array (built so that the spare region is real); joins: nil, empty, every pool string alone, random lists; the input as "
+        "observed after the call and whether the result shares memory with an input are part of the specified answer; distinct = distinct op lines whose containers hold >= 2 elements in total")
 
 
 def run(rep):
